@@ -1270,6 +1270,9 @@ STAGE_FIELDS = ["id", "ref_id", "type", "name", "status", "context", "outputs", 
                 "mutex_key", "cancel_region"]
 
 
+MI_FIELDS = ["count", "count_from_context", "sync_on_complete", "allow_dynamic", "collection_from_context", "join_threshold", "cancel_remaining"]
+
+
 def _stage_roundtrip_run(ctx):
     I = ctx.I
     from pyvc.values import SFunc
@@ -1278,9 +1281,13 @@ def _stage_roundtrip_run(ctx):
     I.st.ghost["the_conn"] = conn
     stage = T.new_symbolic(I, "StageExecution", "stage")
     ctx.args["stage"] = stage
-    I.st.objs[stage.oid].fields["mi_config"] = SNone  # multi-instance configuration: outside this unit (listed)
     for f in STAGE_FIELDS:
         I.obj_getattr(stage, f)
+    mi = I.obj_getattr(stage, "mi_config")  # MultiInstanceConfig | None: the real to_dict / from_dict run in this unit
+    mo = mi.inner if isinstance(mi, SOpt) else mi
+    if isinstance(mo, SObj):
+        for f in MI_FIELDS:
+            I.obj_getattr(mo, f)
     from pyvc.values import VAL
 
     crec = I.st.dicts[I.getattr(stage, "context").did]
@@ -1324,6 +1331,16 @@ def _stage_roundtrip_post(ctx):
                 goals.append((f"field.{f}", I.ops.eq(va, vb)))
         except Exception as e:  # comparison not expressible
             goals.append((f"field.{f}.comparable", FALSE))
+    # control-flow settings of a multi-instance stage: None reads back None, a configuration reads back field by field
+    ma, mb = I.getattr(a, "mi_config"), I.getattr(b, "mi_config")
+    na, nb = I.ops.is_none(ma), I.ops.is_none(mb)
+    goals.append(("field.mi_config.none-iff-none", na == nb))
+    oa, ob_ = (ma.inner if isinstance(ma, SOpt) else ma), (mb.inner if isinstance(mb, SOpt) else mb)
+    if isinstance(oa, SObj) and isinstance(ob_, SObj):
+        for f in MI_FIELDS:
+            goals.append((f"field.mi_config.{f}", z3.Implies(z3.Not(na), I.ops.eq(I.getattr(oa, f), I.getattr(ob_, f)))))
+    elif isinstance(oa, SObj):
+        goals.append(("field.mi_config.read-back", na))
     return goals
 
 
